@@ -24,6 +24,26 @@ def _get_missing():
 MISSING = _Missing()
 
 
+class SelfUnequal:
+    """A value that is not equal to itself (like float('nan')) but equal to every other instance with the same tag, so
+    that the reference's copy compares equal to the engine's while `x == x` on the engine's own object is False."""
+
+    def __init__(self, tag):
+        self.tag = tag
+
+    def __eq__(self, other):
+        return other is not self and isinstance(other, SelfUnequal) and other.tag == self.tag
+
+    def __ne__(self, other):
+        return not self.__eq__(other)
+
+    def __hash__(self):
+        return hash(('SelfUnequal', self.tag))
+
+    def __repr__(self):
+        return f'SelfUnequal({self.tag!r})'
+
+
 class LabelEnum(str, enum.Enum):
     """A switch node may return a str-enum member that EQUALS a declared label (and hashes like it)."""
     L0 = 'L0'
@@ -230,6 +250,8 @@ def behave(node, kwargs, attempt, run):
     ret = plan.get('ret', 'term')
     if ret == 'term':
         return ('ok', term(node['id'], kwargs, plan.get('use_ad', True)))
+    if isinstance(ret[1], list) and ret[1] and ret[1][0] == '__selfunequal__':
+        return ('ok', SelfUnequal(node['id']))
     return ('ok', ret[1])
 
 
